@@ -1450,7 +1450,22 @@ func execPlan(t *testing.T, pa any) (out core.Outcome) {
 				out.Probe("not-recorded:untracked-equals-head")
 				continue
 			}
-			rec[path] = recorded{"untracked-file", nd}
+			class := "untracked-file"
+			for i := strings.IndexByte(path, '/'); i >= 0; {
+				if _, under := idx[path[:i]]; under {
+					// the user replaced a tracked FILE by a directory; this is content inside it (its own
+					// class: what happens to it is decided by how the switch treats the missing file above it,
+					// not by the untracked-overwrite rule)
+					class = "untracked-under-tracked-file"
+					break
+				}
+				j := strings.IndexByte(path[i+1:], '/')
+				if j < 0 {
+					break
+				}
+				i += 1 + j
+			}
+			rec[path] = recorded{class, nd}
 			continue
 		}
 		wtHash, wtMode := blobID(nd.Data), filemode.Regular
